@@ -119,6 +119,18 @@ static void boolD_case(Reporter& rep, const Paths& S, const Paths& C) {
       why = judge_z(all, z, true);
     }
     if (!why.empty()) rep.violation("C15", c.s(), why.substr(0, why.find(':')), why + " result " + zstr(z.closed));
+    // the callback is a property of the call, not of the object's past: install, Execute, remove, Execute again must give
+    // exactly what a clipper that never had a callback gives (same x,y; new vertices carry the default Z)
+    if (fr == 1) {
+      ZOut none = z_boolopD(ct, fr, Sz, Cz, 2, 0), seq = z_boolopD_callback_removed(ct, fr, Sz, Cz, 2);
+      ZOut none64 = z_boolop(ct, fr, Sz, Cz, PathsZ(), true, false, 0, false), seq64 = z_boolop_callback_removed(ct, fr, Sz, Cz);
+      rep.add("lib_calls", 6); rep.add("cases", 2); rep.add("compared", 2); rep.add("nontrivial", (!none.closed.empty()) + (!none64.closed.empty()));
+      auto same = [](const ZOut& a, const ZOut& b) { if (a.closed.size() != b.closed.size()) return false; for (size_t i = 0; i < a.closed.size(); ++i) { if (a.closed[i].size() != b.closed[i].size()) return false;
+        for (size_t j = 0; j < a.closed[i].size(); ++j) if (a.closed[i][j].x != b.closed[i][j].x || a.closed[i][j].y != b.closed[i][j].y || a.closed[i][j].z != b.closed[i][j].z) return false; } return true; };
+      Case c2 = c; c2.set("op", "boolD").set("regime", "callback_removed");
+      if (!seq.ok || !seq.log.empty() || !same(seq, none)) rep.violation("C15", c2.s(), "z_callback_survives_removal", std::string("ClipperD: Execute after SetZCallback(nullptr) ") + (!seq.ok ? "threw / failed" : !seq.log.empty() ? "still invoked the callback" : "differs from a clipper without callback") + ": " + zstr(seq.closed) + " vs " + zstr(none.closed));
+      else if (!seq64.ok || !seq64.log.empty() || !same(seq64, none64)) rep.violation("C15", c2.s(), "z_callback_survives_removal", std::string("Clipper64: Execute after SetZCallback(nullptr) ") + (!seq64.ok ? "threw / failed" : !seq64.log.empty() ? "still invoked the callback" : "differs from a clipper without callback") + ": " + zstr(seq64.closed) + " vs " + zstr(none64.closed));
+    }
   }
   rep.current_case = nullptr;
 }
@@ -156,6 +168,13 @@ int main(int argc, char** argv) {
       if (!is_simple_closed(p) || !angles_ok(p, true)) continue;
       for (double d : {3.5, -3.5, 10.0}) for (int jt = 0; jt < 4; ++jt) offset_case(rep, Paths{p}, d, jt, 0, 2.0, jt == 2 ? 0.5 : 0.0);
       rep.sample("offset polygon " + pstr(Paths{p})); }
+    // axis-parallel shapes with half-integer deltas: the offset displacement is then exactly a half-integer, i.e. a rounding tie
+    { std::vector<Path> shapes = {{{0, 0}, {60, 0}, {60, 40}, {0, 40}}, {{0, 40}, {60, 40}, {60, 0}, {0, 0}}, {{0, 0}, {80, 0}, {80, 30}, {30, 30}, {30, 70}, {0, 70}}, {{10, 10}, {50, 10}, {50, 20}, {20, 20}, {20, 50}, {50, 50}, {50, 60}, {10, 60}}};
+      for (auto& p : shapes) { if (!rep.mine(idx++)) continue;
+        for (double d : {2.5, -2.5, 4.5, -4.5, 6.5, 8.5, 0.5, 1.5}) for (int jt = 0; jt < 4; ++jt) { offset_case(rep, Paths{p}, d, jt, 0, 2.0, 0.0); offset_case(rep, Paths{p}, d, jt, 0, 2.0, 0.5); }
+        Path open(p.begin(), p.begin() + 3);
+        for (double d : {2.5, 4.5, 8.5}) for (int et = 1; et <= 4; ++et) for (int jt = 0; jt < 4; ++jt) offset_case(rep, Paths{open}, d, jt, et, 2.0, 0.0);
+        rep.sample("offset axis-parallel " + pstr(Paths{p})); } }
     std::vector<Path> lines; for (int n = 1; n <= 3; ++n) { std::vector<std::vector<int>> t; enum_tuples(ko, n, false, t); for (auto& ix : t) { Path p; for (int i : ix) p.push_back(PO[i]); lines.push_back(p); } }
     for (auto& l : lines) { if (!rep.mine(idx++)) continue; for (int et = 1; et <= 4; ++et) for (int jt = 0; jt < 4; ++jt) offset_case(rep, Paths{l}, 6.0, jt, et, 2.0, 0.0); rep.sample("offset open " + pstr(Paths{l})); }
     if (done) rep.bounds_completed.push_back("offset scope k=" + std::to_string(k) + " n<=" + std::to_string(nmax) + " + open polylines ko=" + std::to_string(ko));
